@@ -5,7 +5,7 @@ from __future__ import annotations
 import ast
 
 from .. import symex
-from ..symex import Sym, Falsy, T, SList, Engine, show, walk_terms
+from ..symex import Sym, Falsy, T, SList, Engine, show, walk_terms, early_exits
 from ..loader import AnalysisError, FuncInfo, loc
 from ..report import RuleResult
 
@@ -88,6 +88,11 @@ def rule_printfilter(P) -> RuleResult:
                 raise AnalysisError(f'{fi.fq}: no scan of the table of the PRINT statement found')
             prod = [e for d, e in inner if e[0] == 'produce']
             want = (not present) or cls is True
+            if early_exits(p, table):
+                ok = False
+                res.fail(fi.fq, f'print:gate:{desc}', f'with the FROM condition {desc} the scan of the table stops at this row: later '
+                         f'directives are never looked at', loc(fi))
+                continue
             if (len(prod) == 1) != want or len(prod) > 1:
                 ok = False
                 res.fail(fi.fq, f'print:gate:{desc}', f'with the FROM condition {desc} a directive is '
@@ -180,6 +185,11 @@ def rule_rowloop(P) -> RuleResult:
             # the list the rows go to is the one that reaches the returned rows
             want = (not present) or cls is True
             top = [e for d, e in prod if d == 0]
+            if early_exits(p, table):
+                ok = False
+                res.fail(fi.fq + ':non-aggregate-scan', f'rowloop:gate:{desc}', f'with the WHERE condition {desc} the scan of the source table '
+                         f'stops at this row: later rows are never looked at', loc(fi))
+                continue
             if (len(top) == 1) != want or len(top) > 1:
                 ok = False
                 res.fail(fi.fq + ':non-aggregate-scan', f'rowloop:gate:{desc}',
